@@ -579,6 +579,25 @@ def ffa_expected(case):
     return out
 
 
+def gen_lazy(rng):
+    """targets given as a non-dict Mapping that builds every chip's cores on demand (fresh, short-lived objects), or as
+    defaultdict / plain dict: many chips, neighbouring chips with different core sets."""
+    t = {}
+    n = rng.choice([3, 4, 6, 12, 30, 80])
+    ox, oy = rng.randrange(0, 240), rng.randrange(0, 240)
+    for _ in range(n):
+        chip = (ox + rng.randrange(16), oy + rng.randrange(16)) if rng.random() < 0.7 else (rng.randrange(256), rng.randrange(256))
+        t[chip] = rand_cores(rng, 1, 4)
+    if rng.random() < 0.4:
+        gen_shape(rng, t, rng.choice(["full4", "neighbours"]), heavy=False)
+    chips = sorted(t)
+    if rng.random() < 0.5:
+        rng.shuffle(chips)
+    return dict(mode="compress", targets=[[x, y, sorted(t[(x, y)])] for x, y in chips], container=rng.choice(["set", "list"]),
+                mapping=rng.choice(["lazy", "lazy", "lazy-items", "lazy-items", "defaultdict", "plaindict"]),
+                tags=["on-demand-mapping"], order="chosen", valid=True)
+
+
 def clean(c):
     """A case as written to replays / samples: without the harness's private back references."""
     return {k: v for k, v in c.items() if not k.startswith("_")}
@@ -764,6 +783,8 @@ def run(chk, args):
                 cases.append(gen_numpy(rng))
             elif i % 10 == 8:
                 cases.append(gen_ffa(rng))
+            elif i % 10 == 4:
+                cases.append(gen_lazy(rng))
             else:
                 cases.append(gen_case(rng, i, chk.tier))
         for dt in NARROW_DTYPES:
@@ -888,6 +909,8 @@ def run(chk, args):
             for tg in c["tags"]:
                 chk.count("shape:" + tg)
             chk.count("container:" + c["container"])
+            if c.get("mapping"):
+                chk.count("targets mapping:" + c["mapping"])
             chk.count("chip-order:" + c["order"])
             ncores = sum(len(set(t[2])) for t in c["targets"])
             chk.count("cores:" + ("<=16" if ncores <= 16 else "<=256" if ncores <= 256 else "<=4096" if ncores <= 4096 else ">4096"))
